@@ -1619,6 +1619,226 @@ contract(
 )
 
 
+# ===================================================================== C19 (table part): every form of address agrees
+def _alpha(x):
+    """independent column letters: 0 -> A, 25 -> Z, 26 -> AA"""
+    s = ""
+    x += 1
+    while x > 0:
+        x, r = divmod(x - 1, 26)
+        s = chr(65 + r) + s
+    return s
+
+
+ADDRESS_FORMS = ["cell", "columns", "rows"]
+
+
+def _check_address(res, what, init, history):
+    rt = reach(init, history)
+    if rt is None:
+        res.in_domain = False
+        return
+    t, g = rt
+    W, H = g.W, g.H
+    res.checked = 1
+    if what == "cell":
+        for y in range(H):
+            for x in range(W):
+                exp = g.value(x, y)
+                forms = {"(x, y)": (x, y), "'A1'": f"{_alpha(x)}{y + 1}", "(x-W, y-H)": (x - W, y - H),
+                         "(x, y-H)": (x, y - H), "(x-W, y)": (x - W, y)}
+                for fname, coord in forms.items():
+                    got = t.get_value(coord)
+                    if got != exp:
+                        _report(res, "ensures:cell-forms-agree", f"{init} {history}: get_value({coord!r}) [{fname}] == {got!r}, "
+                                f"grid has {exp!r} at ({x}, {y})")
+                    gc = t.get_cell(coord)
+                    if gc.get_value() != exp or (gc.x, gc.y) != (x, y):
+                        _report(res, "ensures:cell-forms-agree", f"{init} {history}: get_cell({coord!r}) [{fname}] holds "
+                                f"{gc.get_value()!r} stamped ({gc.x}, {gc.y}); expected {exp!r} at ({x}, {y})")
+    elif what == "columns":
+        single = [t.get_column(i).style for i in range(W)]
+        if single != list(g.cols):
+            _report(res, "ensures:column-forms-agree", f"{init} {history}: get_column(i) styles {single!r} != grid {g.cols!r}")
+        for s_ in range(W):
+            for e in range(s_, W):
+                exp = list(g.cols[s_:e + 1])
+                forms = {"(s, e)": (s_, e), "'B:D'": f"{_alpha(s_)}:{_alpha(e)}", "(s-W, e-W)": (s_ - W, e - W),
+                         "(s, 0, e, 0)": (s_, 0, e, 0)}
+                for fname, coord in forms.items():
+                    cols = t.get_columns(coord)
+                    got = [c.style for c in cols]
+                    xs = [c.x for c in cols]
+                    if got != exp or xs != list(range(s_, e + 1)):
+                        _report(res, "ensures:column-forms-agree", f"{init} {history}: get_columns({coord!r}) [{fname}] gives "
+                                f"styles {got!r} at x={xs!r}; get_column(i) for i in {s_}..{e} gives {exp!r}")
+    elif what == "rows":
+        single = [t.get_row(i).get_values() for i in range(H)]
+        for s_ in range(H):
+            for e in range(s_, H):
+                exp = single[s_:e + 1]
+                forms = {"(s, e)": (s_, e), "'2:4'": f"{s_ + 1}:{e + 1}", "(s-H, e-H)": (s_ - H, e - H),
+                         "(0, s, 0, e)": (0, s_, 0, e)}
+                for fname, coord in forms.items():
+                    rows = t.get_rows(coord)
+                    got = [r.get_values() for r in rows]
+                    ys = [r.y for r in rows]
+                    if got != exp or ys != list(range(s_, e + 1)):
+                        _report(res, "ensures:row-forms-agree", f"{init} {history}: get_rows({coord!r}) [{fname}] gives {got!r} "
+                                f"at y={ys!r}; get_row(i) for i in {s_}..{e} gives {exp!r}")
+    else:
+        raise KeyError(what)
+
+
+def _gen_address(con, sigcase, count, seed):
+    _new_pass(con)
+    thorough = count > 200
+    keys = reached_keys()
+    if thorough:
+        keys = reached_keys(QUICK_INITS + [f"rnd-{seed * 1000 + i}" for i in range(10)],
+                            REACH_OPS + [(o,) for o in REDUCED[::3]])
+    for init, h in keys:
+        for what in ADDRESS_FORMS:
+            yield {"init": init, "history": h, "what": what}
+
+
+@_guarded
+def _call_address(con, fn, argvals, labels):
+    res = NativeResult()
+    _check_address(res, argvals["what"], argvals["init"], argvals["history"])
+    return res
+
+
+contract(
+    "odfdo.table:Table[addressing]",
+    sig=dict(init=Str, history=Opaque(tuple), what=Str),
+    ensures=[Clause(lab, {"C19"}, lambda a, r, p: True)
+             for lab in ("cell-forms-agree", "column-forms-agree", "row-forms-agree", "no-crash")],
+    gen=_gen_address, call_native=_call_address,
+    bounded=dict(
+        scope="every cell / every column range / every row range of the reachable states used by the getters stand-in (7 "
+              "initial tables incl. run-length encoded rows, cells and columns, each also after one of 10 operations), read "
+              "through the tuple form, the spreadsheet string form ('B3', 'B:D', '2:4'; letters computed independently), "
+              "the 4-tuple form and negative (from the end) forms; all must give the content and the stamps that "
+              "element-by-element reads and the reference grid give",
+        reason="range getters are generators over run-length maps (outside the executor's subset); the coordinate kernel "
+               "itself (convert/translate, letters) is proved"),
+)
+
+
+# ===================================================================== C19 (named ranges): written address = read address
+NR_TABLE_NAMES = ["Sheet1", "Sheet10", "a b", "a.b", "a$b", "it's me", "été", "Année été 2024", "x.y's z$", "0", "Data",
+                  "Data 2024", "Feuille.1 x", "a_b", "tab.$A$1"]
+NR_AREAS = [("B2", (1, 1, 1, 1)), ("A1:C2", (0, 0, 2, 1)), ((1, 1), (1, 1, 1, 1)), ((0, 0, 2, 1), (0, 0, 2, 1)),
+            ("AAA10:AAB11", (702, 9, 703, 10)), ("XFD1048576", (16383, 1048575, 16383, 1048575))]
+# three tables, each name contained in the next one: a rename must touch the ranges of that table only
+NR_RENAME_SETS = [("Data", "Data 2024", "All Data 2024 x"), ("0", "10", "a.10.b"), ("été", "Année été 2024", "l'été.$1"),
+                  ("S", "S.S", "S S")]
+
+
+def _check_named_range(res, argvals):
+    import io
+    from odfdo import Document, Element, Table
+    from odfdo.table import NamedRange
+    mode = argvals["mode"]
+    res.checked = 1
+    if mode == "roundtrip":
+        tn, (area, exp) = argvals["table_name"], argvals["area"]
+        nr = NamedRange("nr_1", area, tn)
+        if (nr.table_name, nr.crange) != (tn, exp):
+            _report(res, "ensures:nr-constructed", f"NamedRange('nr_1', {area!r}, {tn!r}) exposes ({nr.table_name!r}, {nr.crange!r})")
+        back = Element.from_tag(nr.serialize())
+        if (back.table_name, back.crange, back.start, back.end) != (tn, exp, exp[:2], exp[2:]):
+            _report(res, "ensures:nr-reparse", f"NamedRange('nr_1', {area!r}, {tn!r}) written as "
+                    f"{nr.get_attribute_string('table:cell-range-address')!r} reads back as table {back.table_name!r} area "
+                    f"{back.crange!r}")
+        # through a document: set on the table, read from the body, save, reopen, read
+        doc = Document("spreadsheet")
+        doc.body.clear()
+        t = Table(tn, width=3, height=3)
+        doc.body.append(t)
+        t.set_named_range("nr_1", area)
+        buf = io.BytesIO()
+        doc.save(buf)
+        for tag, d in (("live", doc), ("reopened", Document(io.BytesIO(buf.getvalue())))):
+            got = d.body.get_named_range("nr_1")
+            if got is None or (got.table_name, got.crange) != (tn, exp):
+                _report(res, "ensures:nr-document", f"{tag}: table {tn!r} set_named_range('nr_1', {area!r}) reads back as "
+                        f"{None if got is None else (got.table_name, got.crange)!r}")
+            else:
+                own = d.body.get_table(name=tn).get_named_ranges(table_name=tn)
+                if [n.name for n in own] != ["nr_1"]:
+                    _report(res, "ensures:nr-by-table", f"{tag}: get_named_ranges(table_name={tn!r}) lists {[n.name for n in own]!r}")
+    elif mode == "rename":
+        names, which, new = argvals["names"], argvals["which"], argvals["new"]
+        doc = Document("spreadsheet")
+        doc.body.clear()
+        tables = []
+        for n in names:
+            t = Table(n, width=2, height=2)
+            doc.body.append(t)
+            tables.append(t)
+        for i, t in enumerate(tables):
+            t.set_named_range(f"nr_{i}_cell", (i, i))
+            t.set_named_range(f"nr_{i}_area", (0, 0, 1, i + 1))
+        expected = {}
+        for i, n in enumerate(names):
+            owner = new if i == which else n
+            expected[f"nr_{i}_cell"] = (owner, (i, i, i, i))
+            expected[f"nr_{i}_area"] = (owner, (0, 0, 1, i + 1))
+        # get_named_ranges(table_name=<str>) selects by equality of the table name
+        for i, t in enumerate(tables):
+            got = sorted(n.name for n in t.get_named_ranges(table_name=names[i]))
+            if got != [f"nr_{i}_area", f"nr_{i}_cell"]:
+                _report(res, "ensures:nr-by-table", f"tables {names!r}: get_named_ranges(table_name={names[i]!r}) lists {got!r}")
+        tables[which].name = new
+        buf = io.BytesIO()
+        doc.save(buf)
+        for tag, d in (("live", doc), ("reopened", Document(io.BytesIO(buf.getvalue())))):
+            got = {n.name: (n.table_name, n.crange) for n in d.body.get_named_ranges()}
+            if got != expected:
+                bad = {k: (got.get(k), expected[k]) for k in expected if got.get(k) != expected[k]}
+                _report(res, "ensures:nr-rename", f"{tag}: tables {names!r}, table {names[which]!r} renamed to {new!r}: "
+                        f"(read, expected) {bad!r}")
+    else:
+        raise KeyError(mode)
+
+
+def _gen_named_range(con, sigcase, count, seed):
+    _new_pass(con)
+    for tn in NR_TABLE_NAMES:
+        for area in NR_AREAS:
+            yield {"mode": "roundtrip", "table_name": tn, "area": area}
+    for names in NR_RENAME_SETS:
+        for which in range(3):
+            for new in ("Renamed", names[which] + " 2", "new.name's $x"):
+                yield {"mode": "rename", "names": names, "which": which, "new": new}
+
+
+@_guarded
+def _call_named_range(con, fn, argvals, labels):
+    res = NativeResult()
+    _check_named_range(res, argvals)
+    return res
+
+
+contract(
+    "odfdo.table:NamedRange[addresses]",
+    sig=dict(mode=Str),
+    ensures=[Clause(lab, {"C19"}, lambda a, r, p: True)
+             for lab in ("nr-constructed", "nr-reparse", "nr-document", "nr-by-table", "nr-rename", "no-crash")],
+    gen=_gen_named_range, call_native=_call_named_range,
+    bounded=dict(
+        scope="15 accepted table names (spaces, dots, dollars, inner apostrophes, non-ASCII, digits only, names contained "
+              "in one another) x 6 areas (cell / area as string and tuples, three-letter columns, last cell XFD1048576): "
+              "constructor, serialise + reparse, set on a table of a spreadsheet document, read live and after "
+              "save/reopen; 4 sets of three tables whose names contain one another x each table renamed to 3 new names: "
+              "exactly the ranges of the renamed table follow, live and after save/reopen",
+        reason="the address is built and parsed with str.replace/split/partition chains over two attributes and a document "
+               "body lookup (outside the executor's subset)"),
+)
+
+
 # ===================================================================== C10 (table part): clones
 CLONE_OPS = [("set_value", 0, 0, 301), ("set_value", BEY, BEY, 302), ("insert_row", 0, "R3", 310, 2), ("delete_row", 0),
              ("append_cell", 0, 303, 2), ("insert_column", 0, "cq", 2), ("delete_column", 0), ("append_row", "R1", 320, 1),
